@@ -21,7 +21,29 @@ PY_NOTE = (COMMON_NOTE + "Modelled, not verified: CPython semantics of lists, bi
            "leaf_count/_count_total_nodes (test helpers), batching loops of _bulk_load_sorted (reduced to 'items in order'). Theorems are about the "
            "repaired code (model variant del_by_value = false); the pre-repair variant is refuted in Py/LegacyRefuted.v.")
 
+C_NOTE = (COMMON_NOTE + "Modelled, not verified: CPython C-API reference semantics (new vs borrowed references as documented), comparison of "
+          "totally ordered keys without raising, malloc / PyTuple_New not failing. The model is at array level (every node_get_*/node_set_* and temp-array "
+          "access is a checked index: OOB / NULL or wrongly typed dereference are distinguished outcomes) with a ghost reference-count map updated at "
+          "exactly the INCREF/DECREF/XDECREF/CLEAR sites; children are contained in their parent's slot (node addresses are allocation serials). "
+          "Not modelled, covered only by the correspondence runs (subprocess exit status, AddressSanitizer build in the thorough tier, csub / cwrap "
+          "embeddings): use-after-free of node memory and the tp_alloc/tp_free/GC protocol. size/modification_count are unbounded naturals.")
+
 T = {
+ "C12": ("Machine-checked proof that for every capacity and every history of calls (assignment, lookup, deletion, membership, len, keys()/items()/iteration "
+         "through iterator handles, and the package wrapper's get/values/pop/popitem/setdefault/update/copy/clear) the array-level model of the C extension "
+         "answers exactly what the dict specification answers (KeyError iff absent, ascending iteration, first key object kept, ValueError outside 4..65535), "
+         "that an iterator whose stamp differs from the modification count answers RuntimeError without reading any node, that every successful insert or "
+         "delete makes older iterators stale, and that on an unmodified tree the n-th next() is the n-th entry (empty leaves skipped) then StopIteration "
+         "(Props/C12.v). Tied to the code by building the extension from /repo's sources on every run and comparing outputs, the _verif_dump structure, chain, "
+         "size and modification-count relation after every call, for the type driven directly, through a trivial subclass and through the package wrapper, "
+         "with int / str / user-class keys; a dict mirror is the oracle.", C_NOTE),
+ "C13": ("Proof that for every capacity and history no array access of the model is out of bounds and no NULL / wrongly typed slot is dereferenced, that the "
+         "ghost reference count of every object equals the number of slots holding it plus the references handed to the caller after every call, that "
+         "deallocation from any reachable state releases everything (all counts 0), and that capacities outside 4..65535 are rejected (Props/C13.v; the "
+         "pre-repair truncation and leaks are refuted in C/Legacy.v). PARTIAL, labelled: use-after-free of node memory and the subclass allocation protocol "
+         "live in CPython's allocator, which the Gallina model cannot exhibit; they are covered by the correspondence runs only (per-history subprocesses "
+         "whose crash is a violation, refcount / weakref audit of every tracked object against the model's counts after every call and after del + gc, ASan "
+         "in the thorough tier, subclass and wrapper embeddings).", C_NOTE),
  "C07": ("Machine-checked proof that every finite history of calls on the model of the pure-Python BPlusTreeMap (constructor, assignment, lookup, deletion, "
          "get, membership, len, bool, pop, popitem, setdefault, update, copy over several named maps, clear, bulk load, ranges), at every capacity, produces "
          "call by call the outputs of the dict specification (values, KeyError, TypeError, InvalidCapacityError) and never an internal error "
